@@ -40,7 +40,10 @@ def check(run):
     R.rule('C15.params', 'poll / ping_rate / ping_timeout / close_timeout / auto_pong forwarded to same-named slots '
                          'connect -> run -> _regular -> _check_*; persist forwards likewise', 14)
     R.rule('C15.units', 'selector timeout in seconds; poll() gets milliseconds; run() passes poll as the timeout', 4)
+    R.rule('C15.cadence', 'the housekeeping checks run on every iteration of the receive loop (after every wake-up of '
+                          'the selector, readable or not)', 1)
     gate(R)
+    cadence(R)
     poll(R)
     ping(R)
     pong(R)
@@ -102,6 +105,25 @@ def gate(R):
         and fold(R, body[0].value.body, None) == 0.0 and U(body[0].value.orelse) == 'time.time() - self._start_time'
     R.ob('C15.gate', 'session_time = time since Ready', ok, 'session_time returns %s' % (U(body[0].value) if body else None),
          func=st, node=None, construct='session_time')
+
+
+def cadence(R):
+    q = S + '.run'
+    g = R.cfg(q)
+    rd = ReachingDefs(g)
+    heads = [h for h in g.live_nodes() if h.kind == 'loophead']
+    need(heads, 'run(): receive loop not found')
+    hk = [n for n in g.live_nodes() if n.kind == 'forinit' and isinstance(n.ast, ast.Call)
+          and R.types.resolves_to(n.ast, g.ctx, q + '._regular')]
+    waits = [n for (n, _) in calls_to(R, g, 'selectors.SelectorBase.wait')]
+    ok = bool(hk) and bool(waits)
+    for w in waits:
+        # from the selector wake-up, every way to the next wait (or out of the loop normally) runs the housekeeping
+        ok = ok and all_paths_pass(g, normal_succs(w), hk, waits, skip_edge=nx)
+    R.ob('C15.cadence', 'housekeeping after every selector wake-up', ok,
+         'a loop iteration can return to selector.wait() without running the poll / ping / timeout checks (e.g. only when '
+         'the wait timed out): while data trickles in, Poll, auto-ping and both timeouts stop', func=q,
+         node=(waits[0].ast if waits else None), construct='housekeeping per iteration')
 
 
 def _check_fn(R, name):
@@ -336,6 +358,19 @@ def close(R, RID='C15.close'):
         ok = bool(sc) and all_paths_pass(gc, [gc.entry], sc, [n], skip_edge=nx)
         R.ob(RID, 'close time recorded after the Close frame was sent', ok, 'sent_close_time stored before the send',
              func=gq, node=s)
+        # ... and on every path that attempted the send (also when the write failed): otherwise the close timeout is
+        # never armed and the loop waits for a reply for ever
+        ok = bool(sc) and all(all_paths_pass(gc, normal_succs(m), [n], [gc.exit], skip_edge=nx) for m in sc)
+        R.ob(RID, 'close time recorded whenever a Close was attempted', ok,
+             'close() can return after attempting the Close send without recording sent_close_time (e.g. only when the '
+             'send succeeded): the close timeout is then never armed', func=gq, node=s)
+    # every Close goes through close(): _send_close has no other caller (an echo that bypasses close() never arms the timeout)
+    cs = sorted(set(c.func.qual for (c, call, t) in R.types.callers.get('websocket.WebSocket._send_close', [])))
+    R.ob(RID, 'every Close frame is sent through close()', cs == [gq],
+         '_send_close is called from %s: a Close sent outside close() does not record sent_close_time' % cs,
+         func='websocket.WebSocket._send_close', node=None, construct='_send_close callers %s' % cs)
+    for _ in []:
+        pass
 
 
 def params(R):
